@@ -350,6 +350,9 @@ func leafFacts(t types.Type, ts []T) T {
 		case *types.Interface:
 			fs = append(fs, implies(eq(ts[base], num(0)), eq(ts[base+1], num(0))))
 			return base + 2
+		case *types.Pointer:
+			fs = append(fs, implies(eq(ts[base], num(0)), eq(ts[base+1], num(0))))
+			return base + 2
 		}
 		return base + len(layout(t))
 	}
